@@ -24,4 +24,7 @@ Definition run (comp : Z) (inp : list Z) : list Z :=
   else if comp =? 43 then run_meta_from_bytes inp
   else if comp =? 44 then run_varint inp
   else if comp =? 45 then run_meta_ok inp
+  else if comp =? 50 then run_ref_decode inp
+  else if comp =? 51 then run_enc_with inp
+  else if comp =? 52 then run_raw_of inp
   else [-3].
